@@ -149,17 +149,78 @@ EXCL_HANDLES = [("ElementMut<'static, {T}, {M}>", "element::ElementMut"), ("Iter
                 ("LazyClone<'static, Element<'static, {T}, {M}>>", "LazyClone<Element>")]
 
 
+def extra_handles(ctx):
+    """public borrowing types the hand-written tables do not know (added handle types): instantiated from their own generics (a constraint-set parameter bound by
+    `Trait`, a backend parameter bound by `MemBuilder`) and classed by how a user obtains them - out of a shared borrow / a shared handle, or out of an exclusive one.
+    -> (shared rows, exclusive rows, covered def paths)"""
+    fx = ctx.fx
+    sh, ex, cov = [], [], set()
+    shared_recv = ("element::ElementRef", "any_vec::AnyVecRef", "any_value::lazy_clone::LazyClone")
+    for p, a in sorted(fx.adts.items()):
+        if not a.get("reachable") or p in P15_BORROWING_TYPES or not any(g["kind"] == "lifetime" for g in a.get("generics", [])):
+            continue
+        wh = a.get("where", [])
+        args, ok = [], True
+        for g in a.get("generics", []):
+            if g["kind"] == "lifetime":
+                args.append("'static")
+            elif g["kind"] == "type" and any(w.startswith(g["name"] + ": ") and w.endswith("traits::Trait") for w in wh):
+                args.append("{T}")
+            elif g["kind"] == "type" and any(w.startswith(g["name"] + ": ") and w.endswith("mem::MemBuilder") for w in wh):
+                args.append("{M}")
+            else:
+                ok = False
+        if not ok or not any(x["path"] == p and x.get("exported") for x in fx.api):
+            continue
+        cls = None
+        for f in fx.fn_list:
+            if not ctx.is_public(f) or f.get("unsafe") or "sig" not in f or p not in f["sig"]["output"].get("s", ""):
+                continue
+            k = f.get("self_kind")
+            st = f.get("impl_self_ty", {})
+            is_shared = k == "ref" or (k == "value" and st.get("path") in shared_recv) or \
+                (k == "value" and st.get("path") == "iter::Iter" and "ElementRefIterItem" in st.get("s", ""))
+            cls = "shared" if (is_shared and cls in (None, "shared")) else "excl"
+        if cls is None:
+            continue
+        name = p + (":Cloneable" if any("Cloneable" in w for w in wh) else "")
+        # the type may live in a private module and be re-exported from a parent: every path obtained by dropping inner module segments is a candidate,
+        # the probe crate tells which of them names the type (see run())
+        segs = p.split("::")
+        cands = ["::".join(segs[:i] + segs[-1:]) for i in range(len(segs) - 1, -1, -1)]
+        for ci, cp in enumerate(cands):
+            row = ("any_vec::%s<%s>" % (cp, ", ".join(args)), name, p, ci)
+            (sh if cls == "shared" else ex).append(row)
+        cov.add(p)
+    return sh, ex, cov
+
+
 def build_p15(ctx):
     c = Crate("p15probes", P15_PRELUDE)
     n = [0]
+    xs, xe, _cov = extra_handles(ctx)
+
+    cur_group = [None]
+    named = set()
 
     def probe(ty, trait, must_hold, must_fail, key, desc):
         n[0] += 1
         pid = "p%d" % n[0]
         code = "fn %s() { assert_%s::<%s>(); }" % (pid, trait.lower(), ty)
+        if cur_group[0] is not None:
+            key = key + "#%d" % cur_group[0][1] if cur_group[0][1] else key
         c.add(pid, code, None, key, desc, TRAIT_CODES)
         c.probes[pid]["must_hold"] = must_hold
         c.probes[pid]["must_fail"] = must_fail
+        if cur_group[0] is not None:
+            c.probes[pid]["group"] = cur_group[0]
+            if (cur_group[0], ty) not in named:
+                # one naming probe per candidate path and instantiation: does this path name the type at all?
+                named.add((cur_group[0], ty))
+                n[0] += 1
+                nid = "p%d" % n[0]
+                c.add(nid, "fn %s() { fn _n(_: Option<%s>) {} }" % (nid, ty), None, "P15:%s:nameable#%d" % (cur_group[0][0], cur_group[0][1]), "candidate public path", TRAIT_CODES)
+                c.probes[nid]["naming"] = cur_group[0]
 
     for (t, ts, ty_, tc) in TRAITS:
         for (b, bs, by) in BACKENDS:
@@ -168,21 +229,29 @@ def build_p15(ctx):
             # the vector itself: exactly
             probe(vec, "Send", vsend, not vsend, "P15:AnyVec:Send:%s/%s" % (t, b), "AnyVec is Send exactly when the constraint set includes Send and the backend is Send")
             probe(vec, "Sync", vsync, not vsync, "P15:AnyVec:Sync:%s/%s" % (t, b), "AnyVec is Sync exactly when the constraint set includes Sync and the backend is Sync")
-            for (tmpl, name) in SHARED_HANDLES:
-                if "LazyClone" in name and not tc:
+            for row in SHARED_HANDLES + xs:
+                tmpl, name = row[0], row[1]
+                grp = (row[2], row[3]) if len(row) > 2 else None
+                if ("LazyClone" in name or name.endswith(":Cloneable")) and not tc:
                     continue
                 h = tmpl.format(T=t, M=b)
+                cur_group[0] = grp
                 # shared handle: Send/Sync only if &AnyVec is (i.e. AnyVec: Sync)
                 probe(h, "Send", False, not vsync, "P15:%s:Send:%s/%s" % (name, t, b), "a shared handle may be Send only if &AnyVec is Send (AnyVec: Sync)")
                 probe(h, "Sync", False, not vsync, "P15:%s:Sync:%s/%s" % (name, t, b), "a shared handle may be Sync only if &AnyVec is Sync (AnyVec: Sync)")
-            for (tmpl, name) in EXCL_HANDLES:
-                if "LazyClone" in name and not tc:
+            cur_group[0] = None
+            for row in EXCL_HANDLES + xe:
+                tmpl, name = row[0], row[1]
+                grp = (row[2], row[3]) if len(row) > 2 else None
+                if ("LazyClone" in name or name.endswith(":Cloneable")) and not tc:
                     continue
                 h = tmpl.format(T=t, M=b)
+                cur_group[0] = grp
                 lazy = "LazyClone" in name
                 # exclusive handle: Send only if &mut AnyVec is Send (AnyVec: Send); Sync only if AnyVec: Sync.  LazyClone<X> holds &X: Send iff X: Sync.
                 probe(h, "Send", False, not (vsync if lazy else vsend), "P15:%s:Send:%s/%s" % (name, t, b), "an exclusive handle may be Send only if &mut AnyVec is Send (AnyVec: Send)")
                 probe(h, "Sync", False, not vsync, "P15:%s:Sync:%s/%s" % (name, t, b), "a handle may be Sync only if AnyVec is Sync")
+            cur_group[0] = None
             # Clone exists only with Cloneable
             n[0] += 1
             pid = "p%d" % n[0]
@@ -221,7 +290,18 @@ def build_p15(ctx):
                 c.probes[pid]["must_hold"] = bool(ok)
                 c.probes[pid]["must_fail"] = not ok
     # capacity methods exist only for backends that support them
-    for (b, resizable, sizeable) in (("Heap", 1, 1), ("Stack<64>", 0, 0), ("StackN<2, 64>", 0, 0), ("Empty", 0, 0), ("OkB", 0, 0)):
+    # which built-in backends support what is read off the crate (an impl of MemBuilderSizeable for the builder / of MemResizable for its Mem type): the
+    # methods must exist exactly for those; the user backend of the prelude (OkB) implements neither
+    fx = ctx.fx
+    mem_of = {im["self_ty"].get("path"): next((it.get("ty", {}).get("path") for it in im["items"] if it["name"] == "Mem"), None) for im in fx.impls_of("mem::MemBuilder")}
+    sizeable_b = {im["self_ty"].get("path") for im in fx.impls_of("mem::MemBuilderSizeable")}
+    resizable_m = {im["self_ty"].get("path") for im in fx.impls_of("mem::MemResizable")}
+    rows = []
+    for b, bp in (("Heap", "mem::heap::Heap"), ("Stack<64>", "mem::stack::Stack"), ("StackN<2, 64>", "mem::stack_n::StackN"), ("Empty", "mem::empty::Empty")):
+        if bp in mem_of:
+            rows.append((b, int(mem_of[bp] in resizable_m), int(bp in sizeable_b)))
+    rows.append(("OkB", 0, 0))
+    for (b, resizable, sizeable) in rows:
         for m, arg in (("reserve", "1"), ("reserve_exact", "1"), ("shrink_to_fit", ""), ("shrink_to", "1")):
             n[0] += 1
             pid = "p%d" % n[0]
@@ -244,6 +324,11 @@ def build_p15(ctx):
     return c
 
 
+P15_BORROWING_TYPES = ("element::ElementRef", "element::ElementMut", "element::ElementPointer", "iter::Iter", "ops::temp::TempValue", "ops::iter::Iter", "any_vec::AnyVecRef",
+                       "any_vec::AnyVecMut", "any_vec_typed::AnyVecTyped", "any_value::lazy_clone::LazyClone", "ops::pop::Pop", "ops::remove::Remove", "ops::swap_remove::SwapRemove",
+                       "ops::drain::Drain", "ops::splice::Splice", "iter::ElementIterItem", "iter::ElementRefIterItem", "iter::ElementMutIterItem")
+
+
 def inventory_check(ctx, res):
     """every `unsafe impl Send/Sync` header of the crate belongs to a type the matrix covers"""
     covered = {"any_vec::AnyVec", "any_vec_typed::AnyVecTyped", "element::ElementPointer", "iter::Iter", "ops::temp::TempValue", "mem::heap::HeapMem"}
@@ -261,7 +346,8 @@ def inventory_check(ctx, res):
     if n < 12:
         res.coverage_lost("<crate>", "expected >= 12 unsafe Send/Sync impls, found %d" % n)
     # public types with lifetime parameters must be in the matrix
-    names = {"element::ElementRef", "element::ElementMut", "element::ElementPointer", "iter::Iter", "ops::temp::TempValue", "ops::iter::Iter", "any_vec::AnyVecRef",
+    names = set(P15_BORROWING_TYPES) | extra_handles(ctx)[2]
+    _unused = {"element::ElementRef", "element::ElementMut", "element::ElementPointer", "iter::Iter", "ops::temp::TempValue", "ops::iter::Iter", "any_vec::AnyVecRef",
              "any_vec::AnyVecMut", "any_vec_typed::AnyVecTyped", "any_value::lazy_clone::LazyClone", "ops::pop::Pop", "ops::remove::Remove", "ops::swap_remove::SwapRemove",
              "ops::drain::Drain", "ops::splice::Splice", "iter::ElementIterItem", "iter::ElementRefIterItem", "iter::ElementMutIterItem"}
     for p, a in sorted(ctx.fx.adts.items()):
@@ -348,9 +434,37 @@ ELEMENT_ROWS = [
 ]
 
 
+def auto_rows(ctx):
+    """probe rows for public safe methods of AnyVec / AnyVecTyped without a hand-written row, when a call can be synthesised from the signature alone
+    (no method-level type parameters, every argument a usize): -> (erased rows, typed rows)"""
+    covered = {r[0] for r in ERASED_ROWS} | {r[0] for r in TYPED_ROWS} | {r[0] for r in ELEMENT_ROWS}
+    er, ty = [], []
+    for f in ctx.fx.fn_list:
+        if f.get("kind") != "AssocFn" or not ctx.is_public(f) or f.get("unsafe") or f.get("impl_trait") or f.get("self_kind") not in ("ref", "mut"):
+            continue
+        if ctx.fx.fn(f["path"]) is not f:
+            continue
+        sig = f["sig"]
+        if not sig.get("output_free_regions") and not sig.get("output_bound_regions"):
+            continue
+        cp = ctx.p2c.get(f["path"], f["path"])
+        st = f.get("impl_self_ty", {}).get("path")
+        if cp in covered or st not in ("any_vec::AnyVec", "any_vec_typed::AnyVecTyped"):
+            continue
+        if sum(1 for g in f.get("generics", []) if g.get("kind") == "type") > 2:
+            continue
+        ins = sig["inputs"][1:]
+        if not all(t.get("s") == "usize" for t in ins):
+            continue
+        call = "%s.%s(%s)" % ("v" if st == "any_vec::AnyVec" else "t", f["name"], ", ".join("0" for _ in ins))
+        (er if st == "any_vec::AnyVec" else ty).append((cp, "excl" if f["self_kind"] == "mut" else "shared", call))
+    return sorted(er), sorted(ty)
+
+
 def build_p16(ctx):
     c = Crate("p16probes", P16_PRELUDE)
     n = [0]
+    auto_er, auto_ty = auto_rows(ctx)
 
     def pair(key, desc, fail_body, twin_body, sig="()"):
         n[0] += 1
@@ -358,7 +472,7 @@ def build_p16(ctx):
         c.add("f%d" % i, "fn f%d%s {\n%s\n}" % (i, sig, fail_body), True, key, desc, BORROW_CODES)
         c.add("t%d" % i, "fn t%d%s {\n%s\n}" % (i, sig, twin_body), False, key, desc + " (twin)", BORROW_CODES)
 
-    for (m, kind, h) in ERASED_ROWS:
+    for (m, kind, h) in ERASED_ROWS + auto_er:
         # 1 mutate source
         pair("P16:%s:1-mutate-source" % m, "mutating the source while the handle is alive",
              "    let mut v = mk();\n    let h = %s;\n    v.clear();\n    keep(&h);\n    drop(h);" % h,
@@ -383,7 +497,7 @@ def build_p16(ctx):
              "    let mut v = mk();\n    let mut w = mk();\n    let h = %s;\n    w.push(h);\n    w.push(h);" % h,
              "    let mut v = mk();\n    let mut w = mk();\n    let h = %s;\n    w.push(h);" % h)
     # typed views
-    for (m, kind, h) in TYPED_ROWS:
+    for (m, kind, h) in TYPED_ROWS + auto_ty:
         if kind in ("shared-view-consume", "excl-view-consume"):
             view = "v.downcast_ref::<String>().unwrap()" if kind.startswith("shared") else "v.downcast_mut::<String>().unwrap()"
             pair("P16:%s:1-mutate-source" % m, "mutating the source while items of the consumed view are alive",
@@ -462,10 +576,53 @@ def build_p16(ctx):
     return c
 
 
+def _value_receiver_ok(ctx, f):
+    """`self` by value on a handle type: every lifetime in the output already occurs in the consumed handle's type (the conversion keeps the same borrow), and an
+    exclusive output only comes out of an exclusive handle"""
+    from .rules.structure import _is_exclusive_out
+    sig = f["sig"]
+    free = set(sig.get("output_free_regions", []))
+    in_free = set()
+    for r in sig.get("input_regions", [])[:1]:
+        in_free |= set(r.get("free", []))
+    if not free <= in_free or sig.get("output_bound_regions"):
+        return False
+    if _is_exclusive_out(sig["output"]) and not _is_exclusive_out(sig["inputs"][0]):
+        return False
+    return True
+
+
 def p16_row_coverage(ctx, res):
     """every public method whose output carries a lifetime has a probe row"""
-    covered = {r[0] for r in ERASED_ROWS} | {r[0] for r in TYPED_ROWS} | {r[0] for r in ELEMENT_ROWS}
+    auto_er, auto_ty = auto_rows(ctx)
+    covered = {r[0] for r in ERASED_ROWS} | {r[0] for r in TYPED_ROWS} | {r[0] for r in ELEMENT_ROWS} | {r[0] for r in auto_er} | {r[0] for r in auto_ty}
     exported_traits = {a["path"] for a in ctx.fx.api if a["kind"] == "Trait" and a["exported"]}
+    from .rules import structure
+    sig_res = structure.r_sig(ctx)
+    sig_judged = set(sig_res.functions)
+    handle_types = set(P15_BORROWING_TYPES) | {"any_vec::AnyVec", "any_vec_raw::AnyVecRaw"} | extra_handles(ctx)[2]
+
+    def new_handle_type(t, depth=0):
+        """a local borrowing ADT in the output that no probe row covers"""
+        if depth > 6 or not isinstance(t, dict):
+            return None
+        k = t.get("k")
+        if k == "adt":
+            a = ctx.fx.adts.get(t["path"])
+            if a is not None and any(g["kind"] == "lifetime" for g in a.get("generics", [])) and t["path"] not in handle_types:
+                return t["path"]
+            for x in t.get("args", []):
+                r = new_handle_type(x, depth + 1)
+                if r:
+                    return r
+        if k in ("ref", "ptr", "slice", "array"):
+            return new_handle_type(t.get("to"), depth + 1)
+        if k == "tuple":
+            for x in t.get("elems", []):
+                r = new_handle_type(x, depth + 1)
+                if r:
+                    return r
+        return None
     n = 0
     for f in ctx.fx.fn_list:
         if f.get("kind") != "AssocFn" or not ctx.is_public(f) or f.get("self_kind") not in ("ref", "mut", "value"):
@@ -486,8 +643,19 @@ def p16_row_coverage(ctx, res):
         res.inst(sample={"borrowing_method": f["path"]})
         if ctx.p2c.get(f["path"], f["path"]) in covered:
             res.ok()
+            continue
+        # no compile probe can be synthesised for this method: its signature is judged by R-SIG instead (the borrow checker keeps the receiver borrowed for as
+        # long as a value whose type mentions the receiver's borrow region is alive; R-SIG reports every output region that is not such a region), provided
+        # every borrowing type in the output is one the probe matrix already exercises
+        nh = new_handle_type(f["sig"]["output"])
+        if nh is None and f["path"] in sig_judged:
+            res.ok()
+        elif nh is None and f.get("self_kind") == "value" and _value_receiver_ok(ctx, f):
+            res.ok()
         else:
-            res.fail(f["path"], "uncovered-row", "public method %s returns something carrying a lifetime but has no borrow-probe row" % f["path"], kind="coverage-lost")
+            res.fail(f["path"], "uncovered-row", "public method %s returns something carrying a lifetime; no borrow-probe row can be synthesised for it and %s"
+                     % (f["path"], ("its output mentions the borrowing type %s, which no probe row exercises" % nh) if nh else "R-SIG does not judge its signature"),
+                     kind="coverage-lost")
     if n < 40:
         res.coverage_lost("<crate>", "expected >= 40 borrowing public methods, found %d" % n)
 
@@ -545,8 +713,34 @@ def run(pname, prop, tier, scratch, ctx, repo=None):
         errors, other = compile_crate(crate, scratch, repo)
         st["template"] = "trait-resolution probe matrix: assert_send/assert_sync/assert_clone, constructor and method-availability probes; verdict = compiler error present vs oracle cell"
         nfail = 0
+        # added handle types: which candidate path names the type (every naming probe of that candidate compiles)
+        cand_ok = {}
         for pid, pr in crate.probes.items():
+            if "naming" in pr:
+                g = pr["naming"]
+                cand_ok[g] = cand_ok.get(g, True) and not errors.get(pid)
+        chosen = {}
+        for (tp, ci), ok_ in sorted(cand_ok.items(), key=lambda kv: kv[0][1]):
+            if ok_ and tp not in chosen:
+                chosen[tp] = ci
+        for tp in {g[0] for g in cand_ok}:
+            res.inst(sample={"added_handle_type": tp, "public_path_candidate": chosen.get(tp)})
+            if tp in chosen:
+                res.ok()
+            else:
+                res.fail(tp, "uncovered-type", "the added borrowing type %s cannot be named through any candidate public path: its Send/Sync cells are not probed" % tp,
+                         kind="coverage-lost")
+        for pid, pr in crate.probes.items():
+            if "naming" in pr:
+                continue
+            if "group" in pr and chosen.get(pr["group"][0]) != pr["group"][1]:
+                continue          # a path candidate that does not name the type
             got_err = bool(errors.get(pid, set()) & pr["codes"]) or bool(errors.get(pid))
+            if pr.get("must_fail") and errors.get(pid) and not (errors.get(pid, set()) & pr["codes"]):
+                f = res.fail(pr["key"].split(":", 1)[1], "wrong-error", "the probe `%s` is rejected for an unexpected reason %s: the cell is not decided"
+                             % (pr["code"], sorted(errors[pid])), kind="coverage-lost")
+                f.rule = "P15"
+                continue
             res.inst(sample={"probe": pr["code"], "compiles": not got_err, "key": pr["key"]} if pid in ("p1", "p7", "p40") else None)
             if pr.get("must_hold") and got_err:
                 res.fail(pr["key"].split(":", 1)[1], None, "%s: the probe `%s` must compile but is rejected (%s)" % (pr["desc"], pr["code"], sorted(errors[pid])))
